@@ -40,7 +40,26 @@ class KeygenShim(object):
         raise TypeError('a key generator does not call the function')
 
 
-def build_forms(spec, decorate, keygen=None):
+class SiblingInterference(Exception):
+    pass
+
+
+class SharedKeygenShim(KeygenShim):
+    """one klepto.keygen(...) object applied to two functions, each of which registers its own keymap: the key function
+    under test must give what an unshared key generator with the same keymap gives"""
+    def __init__(self, K, Kref):
+        self.K = K
+        self.Kref = Kref
+
+    def key(self, /, *a, **k):
+        got = self.K(*a, **k)
+        want = self.Kref(*a, **k)
+        if type(got) is not type(want) or repr(got) != repr(want):
+            raise SiblingInterference('key %r, but an unshared key generator with the same keymap gives %r' % (got, want))
+        return got
+
+
+def build_forms(spec, decorate, keygen=None, keygen_shared=None):
     """spec = (npos, ndef, varargs, kwonly, varkw); decorate(callable, ignore_self) -> wrapper.
     yields (form name, keyfn(args, kwitems), callfn(args, kwitems), bindfn(args, kwitems), counter)"""
     names = spec[5] if len(spec) > 5 else None
@@ -55,6 +74,10 @@ def build_forms(spec, decorate, keygen=None):
     if keygen is not None:
         fk = plain.compile()
         out.append(('keygen()', KeygenShim(keygen(fk)), (), fk, fk.CALLS))
+    if keygen_shared is not None:
+        fk = plain.compile()
+        sib = plain.compile()
+        out.append(('keygen() shared with a sibling', SharedKeygenShim(keygen_shared(fk, sib), keygen(fk)), (), fk, fk.CALLS))
     # method decorated in the class body, called through an instance
     for ign in (False, True):
         g = meth.compile()
@@ -141,8 +164,19 @@ def _w_c0910(task):
     for kmname, mk, preserving in kms:
         if prop == 'C10' and not preserving:
             continue
+        def _shared(fn, sib, mk=mk):
+            import klepto.keymaps as _km
+            kg = klepto.keygen()
+            K, K2 = kg(fn), kg(sib)
+            K.register(mk())
+            K2.register(_km.hashmap())        # the sibling registers another (lossy) keymap afterwards, and is used
+            try:
+                K2()
+            except Exception:
+                pass
+            return K
         forms = build_forms(spec, lambda c, ign: klepto.inf_cache(keymap=mk(), ignore=('self',) if ign else None)(c),
-                            keygen=lambda fn: klepto.keygen(keymap=mk())(fn))
+                            keygen=lambda fn: klepto.keygen(keymap=mk())(fn), keygen_shared=_shared)
         # C10 claims discrimination for non-flat keymaps, and for flat ones only with a sentinel or without variadic
         # positionals: a flat key without sentinel cannot tell f('k', 1) from f(k=1), and nobody says it can
         # (asked of the keymap object itself: in a chain a + b the right operand decides)
@@ -354,7 +388,8 @@ def _w_c09_decorators(task):
     if alg not in ('no', 'inf'):
         kw['maxsize'] = 100000
     W = getattr(m, alg + '_cache')(**kw)(f)
-    calls = callmc.calls(values=(1.04, 2.55, 3, bdef) + ((kdef,) if ignore is not None else ()), maxpos=2, kwnames=('a', 'b', 'k', 'z'), maxkw=2)
+    # (-0.04 rounds to negative zero at tol 0 and 1: the sign has to come out the same positionally and by keyword)
+    calls = callmc.calls(values=(1.04, 2.55, 3, bdef) + ((kdef,) if ignore is not None else (-0.04,)), maxpos=2, kwnames=('a', 'b', 'k', 'z'), maxkw=2)
     groups = collections.OrderedDict()
     for a, kwi in calls:
         try:
